@@ -6,6 +6,7 @@
 import LiquidModel.Model.Render
 import LiquidModel.Model.Literal
 import LiquidModel.Props.C18
+import LiquidModel.Lemmas.Monad
 namespace Liquid.C07
 open Liquid
 
@@ -112,72 +113,65 @@ theorem C07_missing_is_err (st : Stack) (root : Str) (idx : List Expr) (p : List
 theorem C07_output_missing_is_err (fuel : Nat) (env : Env) (rt : Rt) (w : W) (root : Str) (idx : List Expr)
     (p : List Sc) (hp : evalIdx rt.layers idx = .ok p) (hm : rt.layers.tryGet (.str root :: p) = none) :
     renderN (fuel + 1) env (.output (.var root idx) []) rt w = (.err, rt, w) := by
-  have := C07_missing_is_err rt.layers root idx p hp hm
-  simp [renderN, evalChain, this, bind, Res.bind]
+  have h := C07_missing_is_err rt.layers root idx p hp hm
+  have hc : evalChain env rt.layers (.var root idx) [] = .err := by
+    simp [evalChain, h, bind, Res.bind]
+  simp [renderN, hc]
 
 /-- and when every step exists the output tag prints exactly the value found -/
 theorem C07_output_found (fuel : Nat) (env : Env) (rt : Rt) (w : W) (root : Str) (idx : List Expr)
     (p : List Sc) (v : V) (hp : evalIdx rt.layers idx = .ok p) (hm : rt.layers.tryGet (.str root :: p) = some v) :
-    renderN (fuel + 1) env (.output (.var root idx) []) rt w = writeR rt w v.render := by
-  simp [renderN, evalChain, Expr.eval, hp, C18.C18_get_tryget, hm, C18.ofOpt, bind, Res.bind, List.foldlM, pure]
+    renderN (fuel + 1) env (.output (.var root idx) []) rt w = M.emit v.render rt w := by
+  have hc : evalChain env rt.layers (.var root idx) [] = .ok v := by
+    simp [evalChain, Expr.eval, hp, C18.C18_get_tryget, hm, C18.ofOpt, bind, Res.bind, List.foldlM, pure]
+  simp [renderN, hc]
 
 /-! ### literals -/
 
-theorem digitVal_digitChar : ∀ d, d < 10 → digitVal? (digitChar d) = some d := by decide
+theorem digitVal_of_isDigit (c : Char) (h : c.isDigit = true) : digitVal? c = some (c.toNat - '0'.toNat) := by
+  unfold digitVal?
+  have : '0' ≤ c ∧ c ≤ '9' := by
+    simp [Char.isDigit] at h
+    exact ⟨h.1, h.2⟩
+  simp [this]
 
-theorem isDigit_digitChar : ∀ d, d < 10 → isDigit (digitChar d) = true := by decide
+theorem digitsVal_eq (ds : Str) (h : ∀ c ∈ ds, c.isDigit = true) (acc : Nat) :
+    digitsVal? ds acc = some (Nat.ofDigitChars 10 ds acc) := by
+  induction ds generalizing acc with
+  | nil => simp [digitsVal?]
+  | cons c t ih =>
+    have hc := digitVal_of_isDigit c (h c (by simp))
+    simp only [digitsVal?, hc, Nat.ofDigitChars_cons]
+    rw [ih (fun c hc => h c (by simp [hc]))]
+    congr 2
+    omega
 
-theorem digitsVal_snoc (xs : Str) (c : Char) (acc : Nat) :
-    digitsVal? (xs ++ [c]) acc =
-      (digitsVal? xs acc).bind (fun a => (digitVal? c).map (fun d => a * 10 + d)) := by
-  induction xs generalizing acc with
-  | nil => simp [digitsVal?]; cases digitVal? c <;> rfl
-  | cons x r ih =>
-    simp only [List.cons_append, digitsVal?]
-    cases digitVal? x with
-    | none => rfl
-    | some d => exact ih _
+theorem natDigits_isDigit (n : Nat) : ∀ c ∈ natDigits n, c.isDigit = true :=
+  fun _ hc => Nat.isDigit_of_mem_toDigits (by decide) (by decide) hc
+
+theorem natDigits_all_digits (n : Nat) : (natDigits n).all Char.isDigit = true := by
+  simpa using natDigits_isDigit n
+
+theorem natDigits_ne_nil (n : Nat) : natDigits n ≠ [] := Nat.toDigits_ne_nil
 
 theorem digitsVal_natDigits (n : Nat) : digitsVal? (natDigits n) 0 = some n := by
-  induction n using Nat.strongRecOn with
-  | _ n ih =>
-    rw [natDigits]
-    by_cases h : n < 10
-    · simp [h, digitsVal?, digitVal_digitChar n h]
-    · simp only [h, dif_neg, not_false_eq_true]
-      rw [digitsVal_snoc, ih (n / 10) (by omega), Option.bind_some,
-          digitVal_digitChar (n % 10) (by omega)]
-      simp; omega
+  rw [digitsVal_eq _ (natDigits_isDigit n)]
+  unfold natDigits
+  rw [Nat.ofDigitChars_ten_toDigits]
 
-theorem natDigits_all_digits (n : Nat) : (natDigits n).all isDigit = true := by
-  induction n using Nat.strongRecOn with
-  | _ n ih =>
-    rw [natDigits]
-    by_cases h : n < 10
-    · simp [h, isDigit_digitChar n h]
-    · simp only [h, dif_neg, not_false_eq_true, List.all_append, ih (n / 10) (by omega), Bool.true_and]
-      simp [isDigit_digitChar (n % 10) (by omega)]
-
-theorem natDigits_ne_nil (n : Nat) : natDigits n ≠ [] := by
-  rw [natDigits]; split <;> simp
-
-/-- parsing the digits of `n` with an explicit sign flag -/
+/-- parsing the digits of `n` -/
 theorem parseI64_natDigits (n : Nat) (h : inI64 n = true) : parseI64 (natDigits n) = some (n : Int) := by
-  cases hd : natDigits n with
-  | nil => exact absurd hd (natDigits_ne_nil n)
-  | cons c r =>
-    have hall := natDigits_all_digits n
-    rw [hd] at hall
-    have hc : isDigit c = true := by simp at hall; exact hall.1
-    have h1 : c ≠ '-' := by intro h; subst h; simp [isDigit] at hc
-    have h2 : c ≠ '+' := by intro h; subst h; simp [isDigit] at hc
-    have hv := digitsVal_natDigits n
-    rw [hd] at hv
-    unfold parseI64
-    split
-    · rename_i heq; simp at heq; exact absurd heq.1 h1
-    · rename_i heq; simp at heq; exact absurd heq.1 h2
-    · simp [hv, h]
+  have hd := natDigits_isDigit n
+  have hne := natDigits_ne_nil n
+  unfold parseI64
+  split
+  · rename_i r heq
+    have := hd '-' (by rw [heq]; simp)
+    simp [Char.isDigit] at this
+  · rename_i r heq
+    have := hd '+' (by rw [heq]; simp)
+    simp [Char.isDigit] at this
+  · simp [hne, digitsVal_natDigits, h]
 
 /-- **Integer literals over the whole 64-bit range.** For every `n` in `[i64::MIN, i64::MAX]` the
 decimal text of `n` is an integer literal, converts to the integer `n`, and an output tag prints
@@ -192,18 +186,16 @@ theorem C07_int_roundtrip (n : Int) (h : inI64 n = true) :
     · simp only [hn, if_true]
       simp [natDigits_all_digits, natDigits_ne_nil]
     · simp only [hn, if_false]
-      cases hd : natDigits n.natAbs with
-      | nil => exact absurd hd (natDigits_ne_nil _)
-      | cons c r =>
-        have hall := natDigits_all_digits n.natAbs
-        rw [hd] at hall
-        have hc : isDigit c = true := by simp at hall; exact hall.1
-        have h1 : c ≠ '-' := by intro h; subst h; simp [isDigit] at hc
-        have h2 : c ≠ '+' := by intro h; subst h; simp [isDigit] at hc
-        split
-        · rename_i heq; simp at heq; exact absurd heq.1 h2
-        · rename_i heq; simp at heq; exact absurd heq.1 h1
-        · simpa using hall
+      have hd := natDigits_isDigit n.natAbs
+      have hne := natDigits_ne_nil n.natAbs
+      split
+      · rename_i r heq
+        have := hd '+' (by rw [heq]; simp)
+        simp [Char.isDigit] at this
+      · rename_i r heq
+        have := hd '-' (by rw [heq]; simp)
+        simp [Char.isDigit] at this
+      · simp [hne, natDigits_all_digits]
   · unfold intRepr
     by_cases hn : n < 0
     · simp only [hn, if_true, parseI64]
